@@ -101,6 +101,11 @@ def judge(job, r, ctx_seed=0, want=("C01", "C02", "C03", "C05", "C06", "C07", "C
         # chains deeper than the emitted shadow stack are outside C09's "within its capacity": run them with a
         # shadow region padded to the need computed from the call DAG
         cap = len(r["files"]["ss"]) // 2
+        declared = cfg.get("shadow_stack_size", 800) // 8 * 8       # the configured capacity, in whole slots
+        if cap < declared and "C09" in want:
+            issues.append((["C09"], f"{v} seed {job.get('seed')}: the emitted shadow-stack image holds {cap // 8} "
+                                    f"slots for a configured capacity of {declared // 8}: a call chain using slot "
+                                    f"{cap // 8 + 1}, within the capacity, pushes outside the emitted image"))
         if 8 * info.get("ss_need", 0) > cap:
             r["_ss_padded"] = r["files"]["ss"] + "00" * (8 * info["ss_need"] - cap)
     rng = random.Random(ctx_seed * 31 + len(r["files"]["jit"]))
